@@ -308,6 +308,9 @@ func scenario(a arrangement) vrt.Scenario {
 
 func run(c *h.Check) {
 	runOverlap(c)
+	for _, s := range rshapes() {
+		c.Explore(rScenario(s), 2, 50000, false)
+	}
 	maxLen, bound := 2, 1
 	if c.Thorough() {
 		maxLen, bound = 3, 2
@@ -332,6 +335,11 @@ func run(c *h.Check) {
 func replay(c *h.Check, rf *h.ReplayFile) []vrt.Violation {
 	if vs, ok := replayOverlap(rf); ok {
 		return vs
+	}
+	for _, s := range rshapes() {
+		if s.name() == rf.Scenario {
+			return h.ReplaySchedule(rScenario(s), rf)
+		}
 	}
 	for _, a := range arrangements(3) {
 		if a.String() == rf.Scenario {
